@@ -240,7 +240,12 @@ func NewRequestFromHTTP(r *http.Request) (req *Request, code int, err error) {
 			req.VariableValues = body.Variables
 			req.Extensions = body.Extensions
 		case "application/graphql":
-			if body, _ := ioutil.ReadAll(r.Body); len(body) > 0 {
+			body, err := ioutil.ReadAll(r.Body)
+			if err != nil {
+				// e.g. the body ended before the announced Content-Length
+				return nil, http.StatusBadRequest, fmt.Errorf("malformed request body")
+			}
+			if len(body) > 0 {
 				// a query given in the body takes precedence over a "query" URL parameter
 				req.Query = string(body)
 			}
